@@ -38,12 +38,15 @@ class Clock:
         self.mode = "frozen"
         self.steps = None
         self.reads = 0
+        # what the WALL clock (time.time) shows on top of the time that really passed:
+        # an administrator / NTP stepping the clock changes this, never ``now``
+        self.wall_offset = 0.0
 
     def read(self):
         self.reads += 1
         if self.mode == "stepping" and self.steps is not None:
             self.now += self.steps()
-        return self.now
+        return self.now + self.wall_offset
 
     def freeze(self, now=None):
         self.mode = "frozen"
